@@ -69,11 +69,17 @@ MUT = {"emit_live": ("emit", emit_live), "emit_last": ("emit", emit_last), "emit
 for name, (attr, fn) in MUT.items():
     if len(sys.argv) > 1 and name not in sys.argv[1:]: continue
     setattr(S, attr, fn)
+    PUB = {"emit": "emit_signal", "connect": "connect_signal", "disconnect": "disconnect_signal", "disconnect_by_key": "disconnect_signal_by_key"}
+    saved = {}
+    if attr in PUB:
+        for mod in (urwid, usig):
+            saved[mod] = getattr(mod, PUB[attr]); setattr(mod, PUB[attr], getattr(usig._signals, attr))
     if name == "nodeadcheck+noauto": S._prepare_user_args = prep_noauto
     try:
         r = b.run("quick", 0)
     finally:
         for k, v in orig.items(): setattr(S, k, v)
+        for mod, v in saved.items(): setattr(mod, PUB[attr], v)
         del KEEP[:]
     print(name, {c["name"].split("/")[1]: len(c["failures"]) for c in r["checks"]})
     for c in r["checks"]:
